@@ -213,3 +213,26 @@ def read_views(traj):
 def rand_se3(rng, tscale=None):
     tscale = 10.0**rng.uniform(-3, 4) if tscale is None else tscale
     return rm.se3(rand_rot(rng), rng.normal(size=3) * tscale)
+
+
+def age(rng, traj, p=0.5):
+    """
+    Give a freshly built object a *history* that must not change what it describes: partial
+    reads of representations and derived quantities (which create whatever caches exist).
+    Returns the list of attributes that were read.
+    """
+    done = []
+    if rng.random() >= p:
+        return done
+    names = ["positions_xyz", "orientations_quat_wxyz", "poses_se3", "distances", "path_length", "num_poses"]
+    if hasattr(traj, "timestamps") and traj.num_poses >= 2:
+        names.append("speeds")
+    for a in names:
+        if rng.random() < .35:
+            getattr(traj, a)
+            done.append(a)
+    if rng.random() < .2:
+        traj.get_infos()
+        traj.check()
+        done.append("get_infos+check")
+    return done
